@@ -1447,6 +1447,33 @@ func TestProp(t *testing.T) {
 	}
 	r.Subspace("6 iterable kinds x lengths {17, 64, 65, 130, 257} x 14 of the fixed bodies; 5 kinds x length 3 x fixed bodies x 4 further spellings of the loop head; 5 kinds x length 3 x fixed bodies x 6 other sets of variable names", cells, true)
 
+	// maps in the one-variable form: bodies that read no variable render the same under every visiting order
+	cells = 0
+	for ki, ik := range iterKinds {
+		if !ik.isMap {
+			continue
+		}
+		T := func(s string) model.Node { return model.Text{S: s} }
+		brk, cnt := model.Code{S: model.BreakS{}}, model.Code{S: model.ContinueS{}}
+		plain := ik
+		plain.isMap = false // no key marker
+		for _, n := range lengths(ik, maxN) {
+			for _, body := range [][]model.Node{
+				{T("a")},
+				{T("a"), brk, T("dead")},
+				{T("a"), cnt, T("dead")},
+				{model.EmitFor{For: &model.For{Val: "w", Iter: model.Var{Name: "ys"}, Body: []model.Node{T("i"), model.Code{S: model.IfS{If: &model.If{Cond: model.Lit{V: true}, Then: []model.Node{brk}}}}}}}, T("a")},
+				{model.EmitIf{If: &model.If{Cond: model.Lit{V: false}, Then: []model.Node{T("f")}, ElseIfs: []model.ElseIf{{Cond: model.Lit{V: true}, Then: []model.Node{T("x"), cnt}}}}}, T("dead")},
+			} {
+				if r.Mine(cells) {
+					r.Check(run(r, Case{Kind: ki, N: n}, wholeProg(plain, n, false, body)))
+				}
+				cells++
+			}
+		}
+	}
+	r.Subspace("map kinds x lengths x 5 bodies that read no variable, one-variable form", cells, true)
+
 	// (T) one parsed template, several executions: every ordered pair of (kind, length in {0, 1, 3}) of the kinds
 	// that bind xs directly and agree on what the bodies may compare, x 6 bodies
 	cells = 0
